@@ -196,6 +196,26 @@ macro_rules! common {
                     fclip(query::details::clip_segment_segment((a1, b1), (a2, b2)))
                 }
                 "clipn" => clipn(a),
+                "clipal" => {
+                    let mins = p(a); let maxs = p(a); let o = p(a); let d = v(a);
+                    match query::details::clip_aabb_line(&px::bounding_volume::Aabb::new(mins, maxs), &o, &d) {
+                        None => "none".into(),
+                        Some((n, f)) => format!("near {} {} s{} far {} {} s{}", ff(n.0), fv(&n.1), n.2, ff(f.0), fv(&f.1), f.2),
+                    }
+                }
+                "cliphp" => {
+                    let c = p(a); let n = v(a); let k = a.u(); let poly: Vec<_> = (0..k).map(|_| p(a)).collect();
+                    let mut res = vec![Point::origin()];
+                    query::details::clip_halfspace_polygon(&c, &n, &poly, &mut res);
+                    format!("k {} {}", res.len(), res.iter().map(fp).collect::<Vec<_>>().join(" "))
+                }
+                "sup" => {
+                    let s = Sh::parse(a); let d = v(a);
+                    let g = match s.build() { Some(x) => x, None => return "noshape".into() };
+                    let sm = match g.as_support_map() { Some(x) => x, None => return "nosupportmap".into() };
+                    let un = Unit::try_new(d, 0.0);
+                    format!("sp {} spt {}", fp(&sm.local_support_point(&d)), match un { None => "none".into(), Some(u) => fp(&sm.local_support_point_toward(&u)) })
+                }
                 _ => "nofn".into(),
             }
         }
@@ -342,6 +362,28 @@ macro_rules! common {
             for _ in 0..300 * k {
                 let t = gen_tri(r); if let Sh::Tri(a, b2, c) = &t { out.push((format!("trim{}", DIM), format!("triangle{} {} {} {}", t.degen(), hv(a), hv(b2), hv(c)))); }
                 let sg = gen_seg(r); if let Sh::Seg(a, b2) = &sg { out.push((format!("segm{}", DIM), format!("segment{} {} {}", sg.degen(), hv(a), hv(b2)))); }
+            }
+            // ---- clip_aabb_line / clip_halfspace_polygon / support points: flat boxes, origin on faces, zero / axis-parallel / tiny directions
+            for _ in 0..300 * k {
+                let c = latv(r); let flat = r.below(3) == 0;
+                let he = V::from_fn(|i, _| if flat && i == 0 { 0.0 } else { ext(r) });
+                let (mins, maxs) = (c - he, c + he);
+                let corner = V::from_fn(|i, _| if r.bool() { mins[i] } else { maxs[i] });
+                let (o, cls) = match r.below(4) { 0 => (corner, "origin-on-corner"), 1 => (c, "origin-at-centre"),
+                                                  2 => (corner + axis(r) * *r.pick(&[1.0, 1e-300, 0.5]), "axis-offset"), _ => (corner + oblique(r), "oblique-offset") };
+                let d = match r.below(6) { 0 => z(), 1 => axis(r), 2 => axis(r) * 1e-300, 3 => axis(r) * 1e150, 4 => c - o, _ => oblique(r) };
+                let cls = format!("{}{}", cls, if flat { "+aabb-flat" } else { "" });
+                out.push((format!("clipal{}", DIM), format!("{} {} {} {} {}", cls, hv(&mins), hv(&maxs), hv(&o), hv(&d))));
+                let s = gen_shape(r);
+                out.push((format!("sup{}", DIM), format!("direction{} {} {}", s.degen(), s.enc(), hv(&d))));
+                // polygon: triangle / quad with repeated or collinear vertices; plane through vertices
+                let t = gen_tri(r);
+                if let Sh::Tri(pa, pb, pc) = &t {
+                    let poly = if r.bool() { vec![*pa, *pb, *pc] } else { vec![*pa, *pb, *pb, *pc, (pa + pc) * 0.5] };
+                    let n = match r.below(4) { 0 => z(), 1 => axis(r), 2 => pb - pa, _ => oblique(r) };
+                    let cen = *r.pick(&poly);
+                    out.push((format!("cliphp{}", DIM), format!("polygon{} {} {} {} {}", t.degen(), hv(&cen), hv(&n), poly.len(), poly.iter().map(hv).collect::<Vec<_>>().join(" "))));
+                }
             }
             // ---- clip helpers: zero-length / perpendicular / end-point-on-end-point configurations
             for _ in 0..400 * k {
